@@ -1,24 +1,40 @@
-(* C05 — defects of the unchanged library that the faithful model exhibits
-   (known findings; witnesses evaluated on the binary64 instance, where these
-   small-integer computations are exact). *)
+(* C05 — witnesses evaluated on the binary64 instance (these small-integer
+   computations are exact): regression cases of retired findings and one quirk of
+   the unchanged library that the faithful model exhibits. *)
 From Coq Require Import String List ZArith Bool Floats.
 From ADV Require Import Base.Num Base.Corr C05.Model C05.Corr.
 Import ListNotations.
 Open Scope float_scope.
 
-(* F-TRIDIAG-SIGN: already tridiagonal input with a negative off-diagonal entry:
-   the reflectors are the identity (U = I) but T differs from A. *)
-Lemma tridiag_sign_refuted :
-  exists A : fmat,
-    let r := tridiag NumXF true A in
-    ofm_eqb (snd r) (Some (ident NumXF 3)) = true /\ fm_eqb (fst r) A = false /\
-    get NumXF (fst r) 1 0 = 2 /\ get NumXF A 1 0 = (-2).
-Proof. exists [[1;-2;0];[-2;3;1];[0;1;1]]. vm_compute. repeat split; reflexivity. Qed.
+(* Regression witnesses of two retired findings (fixed in /repo by 0e89154 and
+   b6e746d).  The pre-fix models [tridiag], [gram_schmidt_in] still exhibit the
+   defect; the HEAD models [tridiag2], [gram_schmidt_in2] do not. *)
 
-(* F-GS-INSITU: a recycled buffer R0 shows through below the diagonal of R. *)
-Lemma gs_insitu_refuted :
-  exists (R0 A : fmat), get NumXF (snd (gram_schmidt_in NumXF R0 A)) 1 0 = 9.25.
-Proof. exists [[7.25;8.25];[9.25;10.25]], [[0;1];[1;0]]. vm_compute. reflexivity. Qed.
+(* was F-TRIDIAG-SIGN: already tridiagonal input with a negative off-diagonal entry.
+   HEAD: reflectors are the identity, U = I and T = A. *)
+Lemma tridiag_sign_regression :
+  let A : fmat := [[1;-2;0];[-2;3;1];[0;1;1]] in
+  (let r := tridiag2 NumXF true A in
+   ofm_eqb (snd r) (Some (ident NumXF 3)) = true /\ fm_eqb (fst r) A = true) /\
+  (let r := tridiag NumXF true A in fm_eqb (fst r) A = false).
+Proof. vm_compute. repeat split; reflexivity. Qed.
+
+(* was F-GS-INSITU: a recycled buffer R0 showed through below the diagonal of R.
+   HEAD: the result does not depend on R0 (here: equals the run on a zero buffer). *)
+Lemma gs_insitu_regression :
+  let R0 : fmat := [[7.25;8.25];[9.25;10.25]] in let A : fmat := [[0;1];[1;0]] in
+  get NumXF (snd (gram_schmidt_in NumXF R0 A)) 1 0 = 9.25 /\
+  get NumXF (snd (gram_schmidt_in2 NumXF R0 A)) 1 0 = 0 /\
+  fm_eqb (snd (gram_schmidt_in2 NumXF R0 A)) (snd (gram_schmidt2 NumXF A)) = true.
+Proof. vm_compute. repeat split; reflexivity. Qed.
+
+(* was F-BIDIAG-V: 4 columns, two right reflectors.  HEAD accumulates V from the
+   right; the pre-fix model returns the transpose of that V. *)
+Lemma bidiag_v_regression :
+  let A : fmat := [[1;2;0;1];[0;1;3;2];[2;0;1;1];[1;1;0;3]] in
+  fm_eqb (fst (fst (bidiag2 NumXF true true A))) (fst (fst (bidiag NumXF true true A))) = true /\
+  ofm_eqb (snd (bidiag2 NumXF true true A)) (snd (bidiag NumXF true true A)) = false.
+Proof. vm_compute. split; reflexivity. Qed.
 
 (* cholesky accepts a singular positive SEMI-definite matrix (pivot 0 is not an
    error: the test is t < 0) and returns NaN entries with a nil error. *)
